@@ -25,7 +25,7 @@ CORR_HEADER = ("From Coq Require Import ZArith QArith List String.\n"
 CHECK_FN = "check_c15"
 SHARD = 40
 RULE = ("stream acn: get_evs on 1-4 synthetic session documents (aware datetimes in 7 pytz zones, instants placed "
-        "at period boundaries +-{0,1us,1ms,1s} around DST changes, the epoch grid and random), periods {1,5,15,60}, "
+        "at period boundaries +-{0,1us,1ms,1s} around DST changes, the epoch grid and random), periods {1,5,15,60} and periods that do not divide 60 {7,8,9,11,25,40,45,90,2.5,7.5}, "
         "max_len, force_feasible, battery_params None/{Battery}/{Linear2StageBattery+batt_cap_fn}, energies on both "
         "sides of the force_feasible cap and of the fit's feasibility limit, malformed (negative energy); "
         "stream stoch: raw sample matrices (0-4 rows x 1-3 days incl. empty days, rows outside the clip bounds and "
@@ -83,16 +83,30 @@ def err_tag(e):
 # ---------------------------------------------------------------------------------------------
 # float-ambiguity detectors (decide with Fractions which cases the exact model may not judge)
 # ---------------------------------------------------------------------------------------------
-def floor_ambiguous(qv, margin):
-    """qv exact; True when qv is not an integer but within `margin` of one"""
+def floor_ambiguous(qv, margin, exact_ok=True):
+    """qv exact; True when qv is not an integer but within `margin` of one (exact_ok=False: an exact
+    integer counts too — the float computation goes through an inexact factor such as 60/7)"""
     r = qv - math.floor(qv)
     d = min(r, 1 - r)
-    return d != 0 and d < margin
+    return (d != 0 or not exact_ok) and d < margin
+
+
+def psec(T):
+    """seconds per period, exactly"""
+    return F(60) * F(T)
+
+
+def pph_exact(T):
+    """is the float 60 / T the exact periods-per-hour?"""
+    return F(60 / T) == F(60) / F(T)
+
+
+PERIODS = [1, 5, 5, 5, 15, 60, 7, 8, 9, 11, 25, 40, 45, 90, 2.5, 7.5]   # incl. periods that do not divide 60
 
 
 def ts_margin(tsv, T):
-    qv = tsv / (60 * T)
-    return F(24, 10 ** 7) / (60 * T) + 16 * abs(qv) * F(1, 2 ** 53) + F(1, 10 ** 12)
+    qv = tsv / psec(T)
+    return F(24, 10 ** 7) / psec(T) + 16 * abs(qv) * F(1, 2 ** 53) + F(1, 10 ** 12)
 
 
 def fit_margin(E, n, V, T):
@@ -374,9 +388,10 @@ OFFS_SURE = [(0, 0), (0, 0), (0, 0), (0, 1000), (0, -1000), (1, 0), (-1, 0), (0,
 
 def near_boundary(rng, base_sec, T):
     """an instant (sec, us) on / next to a period boundary of the epoch grid"""
-    k = base_sec // (60 * T)
+    P = int(psec(T))
+    k = base_sec // P
     s, us = rng.choice(OFFS) if rng.random() < 0.04 else rng.choice(OFFS_SURE)
-    sec = k * 60 * T + s
+    sec = k * P + s
     if us < 0:
         sec -= 1
         us += 10 ** 6
@@ -392,7 +407,7 @@ def deliverable_32(V, stay, T):
 
 
 def gen_acn_input(rng):
-    T = rng.choice([1, 5, 5, 15, 60])
+    T = rng.choice(PERIODS)
     zone = rng.choice(ZONES)
     anchor = rng.choice(ANCHORS)
     start = near_boundary(rng, anchor - rng.choice([0, 1800, 3600, 7200, 86400]), T) if rng.random() < 0.6 \
@@ -414,11 +429,11 @@ def gen_acn_input(rng):
         if dur_choice < 0.15:        # same period / very short
             dsec = rng.choice([0, 1, 20, 59])
         elif dur_choice < 0.55:      # a whole number of periods (+- a little)
-            dsec = rng.choice([1, 2, 3, 6, 12, 24, 36, 60, 100]) * 60 * T + rng.choice([0, 0, -1, 1, 30])
+            dsec = rng.choice([1, 2, 3, 6, 12, 24, 36, 60, 100]) * int(psec(T)) + rng.choice([0, 0, -1, 1, 30])
         else:
             dsec = rng.randint(60, 14 * 3600)
         disc = [conn[0] + max(dsec, 0), rng.choice([conn[1], conn[1], rng.randint(conn[1], 999999)])]
-        stay_guess = max(0, disc[0] // (60 * T) - conn[0] // (60 * T))
+        stay_guess = int(max(0, disc[0] // psec(T) - conn[0] // psec(T)))
         if max_len is not None:
             stay_guess = min(stay_guess, max_len)
         kind = rng.random()
@@ -451,7 +466,7 @@ def acn_ambiguous(inp, impl):
     insts = [inp["start"]] + [d["conn"] for d in inp["docs"]] + [d["disc"] for d in inp["docs"]]
     for s in insts:
         tsv = ts_exact(*s)
-        if floor_ambiguous(tsv / (60 * T), ts_margin(tsv, T)):
+        if floor_ambiguous(tsv / psec(T), ts_margin(tsv, T)):
             return True
     if is_fit(inp["bp"]) and "evs" in impl:
         for o in impl["evs"]:
@@ -459,10 +474,10 @@ def acn_ambiguous(inp, impl):
                 return True
     if is_fit(inp["bp"]) and "error" in impl:
         # find the failing document: every prefix document may be the culprit; be conservative
-        off = math.floor(ts_exact(*inp["start"]) / (60 * T))
+        off = math.floor(ts_exact(*inp["start"]) / psec(T))
         for d in inp["docs"]:
-            a = math.floor(ts_exact(*d["conn"]) / (60 * T)) - off
-            dep = math.floor(ts_exact(*d["disc"]) / (60 * T)) - off
+            a = math.floor(ts_exact(*d["conn"]) / psec(T)) - off
+            dep = math.floor(ts_exact(*d["disc"]) / psec(T)) - off
             if inp["max_len"] is not None and dep - a > inp["max_len"]:
                 dep = a + inp["max_len"]
             e = d["kwh"]
@@ -482,7 +497,7 @@ def make_acn_case(inp):
 
 
 def gen_stoch_input(rng):
-    T = rng.choice([1, 5, 5, 15, 60])
+    T = rng.choice(PERIODS)
     V = rng.choice(VOLTS)
     maxP = rng.choice(MAXP)
     bp = rng.choice(["none", "battery", "fit"])
@@ -538,14 +553,14 @@ def stoch_rows_exact(inp):
 
 def stoch_ambiguous(inp, impl):
     T = inp["T"]
-    pph = F(60, T)
+    pph = F(60) / F(T)
     for idx, a, d, e in stoch_rows_exact(inp):
         if a < 0 or d <= 0 or e <= 0:
             continue
         if inp["max_len"] is not None and d > F(inp["max_len"]):
             d = F(inp["max_len"])
         for v in (a * pph, (a + d) * pph):
-            if floor_ambiguous(v, F(1, 10 ** 9) * max(1, abs(v))):
+            if floor_ambiguous(v, F(1, 10 ** 9) * max(1, abs(v)), exact_ok=pph_exact(T)):
                 return True
     if is_fit(inp["bp"]):
         if "evs" in impl:
@@ -576,9 +591,9 @@ def make_stoch_case(inp):
 
 def gen_fit_input(rng):
     V = rng.choice(VOLTS)
-    T = rng.choice([1, 5, 5, 15, 60])
+    T = rng.choice(PERIODS)
     n = rng.choice([0, 1, 2, 3, 6, 12, 12, 24, 32, 48, 64, 100, 150])
-    if T == 60:
+    if T >= 40:
         n = min(n, 48)
     cap = rng.choice(LADDER)
     m = 32 * V / 1000 / cap / (60 / T)
@@ -819,15 +834,15 @@ def rejection_ok(bp, sessions, V, T, recursion=False):
 
 def monitor_acn(inp, impl):
     T = inp["T"]
-    off = math.floor(ts_exact(*inp["start"]) / (60 * T))
+    off = math.floor(ts_exact(*inp["start"]) / psec(T))
     if "error" in impl:
         rec = impl["error"] == "RecursionError" and is_fit(inp["bp"])
         if not impl["error"].startswith("ValueError") and not rec:
             return "get_evs raised %s" % impl["error"]
         sess = []
         for d in inp["docs"]:
-            a = math.floor(ts_exact(*d["conn"]) / (60 * T)) - off
-            dep = math.floor(ts_exact(*d["disc"]) / (60 * T)) - off
+            a = math.floor(ts_exact(*d["conn"]) / psec(T)) - off
+            dep = math.floor(ts_exact(*d["disc"]) / psec(T)) - off
             if inp["max_len"] is not None and dep - a > inp["max_len"]:
                 dep = a + inp["max_len"]
             e = F(d["kwh"])
@@ -842,8 +857,8 @@ def monitor_acn(inp, impl):
     prev = None
     rows = []
     for d, o in zip(inp["docs"], impl["evs"]):
-        a = math.floor(ts_exact(*d["conn"]) / (60 * T)) - off
-        dep = math.floor(ts_exact(*d["disc"]) / (60 * T)) - off
+        a = math.floor(ts_exact(*d["conn"]) / psec(T)) - off
+        dep = math.floor(ts_exact(*d["disc"]) / psec(T)) - off
         if not o["int_types"]:
             return "arrival/departure are not ints"
         if o["arrival"] != a:
@@ -879,7 +894,7 @@ def monitor_acn(inp, impl):
 
 def monitor_stoch(inp, impl):
     T = inp["T"]
-    pph = F(60, T)
+    pph = F(60) / F(T)
     if "error" in impl:
         rec = impl["error"] == "RecursionError" and is_fit(inp["bp"])
         if not impl["error"].startswith("ValueError") and not rec:
